@@ -90,6 +90,16 @@ static int line_to_instr(struct instr *instr_data, char *filtered_asm_str) {
   instr_data->key = str_to_instr_key(instr_data->instruction, opd_format);
   FAIL_IF_VAR(instr_data->key == INSTR_ERROR,
               "unsupported or illegal instruction: %s\n", asm_str);
+  // the MMX rows share the operand kind 'r' with the general registers, but
+  // only mm0-mm7 are valid there
+  if (TYPE(instr_data->key, VECTOR) &&
+      (opd_format == rr || opd_format == rm || opd_format == mr)) {
+    for (int i = 0; i < 2; i++)
+      FAIL_IF_VAR(instr_data->opd[i].type == 'r' &&
+                      (instr_data->opd[i].reg & MODE_MASK) != mmx64,
+                  "Invalid register for instruction: %s\n",
+                  instr_data->instruction);
+  }
   if (instr_data->imm && TYPE(instr_data->key, CONTROL_FLOW)) {
     if (IN_RANGE(instr_data->cons, NEG80_32BIT, MAX_UNSIGNED_32BIT) ||
         (instr_data->cons <= MAX_SIGNED_8BIT && !instr_data->keyword.is_long))
